@@ -10,7 +10,7 @@ Is(name) == l <= NEv /\ TLog[l].ev = name
 Consume  == l' = l + 1
 E == TLog[l]
 
-TReset == /\ Is("Reset")
+TReset == /\ Is("Reset") /\ act \in {"Init", "End"}
           /\ req' = [msgs |-> E.req.msgs, cfg |-> E.req.cfg]
           /\ res' = NoRes /\ hres' = NoH /\ act' = "Submitted" /\ dev' = {}
           /\ Consume
@@ -20,6 +20,7 @@ XHttp == [st |-> E.st, shape |-> E.shape, up |-> E.up, out |-> E.out]
 
 TTranslate == Is("Translate") /\ Translate(XRes, {}) /\ Consume
 THttp      == Is("Http") /\ Http(XHttp, {}) /\ Consume
+TEnd       == Is("End") /\ End /\ Consume
 
 (* Known findings (only those listed in KnownDeviations).  D is the smallest set of named        *)
 (* deviations under which the recorded result is a step; each deviation replaces the client's    *)
@@ -41,7 +42,7 @@ KF_Http == /\ Is("Http")
 
 TraceInit == /\ req = [msgs |-> <<>>, cfg |-> DefaultCfg] /\ res = NoRes /\ hres = NoH
              /\ act = "Init" /\ dev = {} /\ l = 1
-TraceNext == TReset \/ TTranslate \/ THttp \/ KF_Translate \/ KF_Http
+TraceNext == TReset \/ TTranslate \/ THttp \/ TEnd \/ KF_Translate \/ KF_Http
 TraceSpec == TraceInit /\ [][TraceNext]_tvars
 HW == HWMark(l)
 =============================================================================
